@@ -256,6 +256,10 @@ class Extractor:
                 il = iterator_for(f, i, R)
                 if il:
                     return [('loop', {(substitute(il['range'], subst) + '.size',): 1}, il['name'], body, n['id'], f)]
+            if lf is not None and lf['op'] == '<=':
+                # for (i = a; i <= b; ++i): b - a + 1 iterations (for b >= a)
+                rep = P.add(P.add(P.poly(f, lf['bound'], R), P.poly(f, lf['start'], R), -1), P.const(1))
+                return [('loop', subst_poly(rep, subst), lf['name'], hdr + body, n['id'], f)]
             if lf is None or lf['op'] != '<':
                 return [('loop', None, None, hdr + body, n['id'], f)]
             rep = P.add(P.poly(f, lf['bound'], R), P.poly(f, lf['start'], R), -1)
